@@ -262,6 +262,9 @@ def to_model(data_file: typing.IO, _config = None, progress_callback=lambda _: N
           .replace(r"{u}", r"<u>")\
           .replace(r"{/u}", r"</u>")
 
+        # SRT has no marked sections, which HTMLParser rejects with AssertionError unless well formed
+        subtitle_text = subtitle_text.replace("<![", "&lt;![")
+
         parser = _TextParser(current_p, line_index)
         parser.feed(subtitle_text)
         parser.close()
